@@ -6,6 +6,10 @@ ids = [json.loads(l)['id'] for l in open(f'{V}/properties.jsonl')]
 hook_commits = ["d6c2605", "7556b51"]
 
 CLAIMED = {
+ "C14": dict(engine="E2 corpus", technique="proptest-driven generation with metamorphic presentation twins (by name / inline / flatten / as); oracle = witness search for a distinguishing JSON value + serde values on every twin",
+   text="For each generated module one field of a user type is presented by name, inlined, flattened and via `as` on a structurally equal twin type (also under `#[ts(optional)]`); every twin is compiled. Serde values must inhabit every twin; by-name and inline may not be distinguishable by any enumerated/sampled JSON witness; the `as` twin's declaration must be textually the by-name one; by-name witnesses with the field merged into the parent must inhabit the flattened twin; decl_concrete() must equal `type N = inline()` and inline() must be indistinguishable from the declaration instantiated at the arguments.",
+   note="Equivalence is decided by witness search only (no witness = counted as inconclusive equivalence). One known finding (optional_fields on a bare parameter instantiated with Option) is listed and excluded by construction.",
+   ref="DESIGN.md §4 C14"),
  "C13": dict(engine="E2 corpus + schedules", technique="differential testing across K independent compilations (fresh hash seeds) and generated export schedules; oracle = byte equality",
    text="The same generated source (types with many dependencies, shared files) is compiled in 3 (quick) / 6 (thorough) slot crates by independent rustc processes; every binary dumps all public string-returning functions 12 times and exports all types under generated orders, thread counts {1,2,8,16} and delay tapes; dumps and export trees must be identical between calls, schedules and binaries.",
    note="The hash seed of the macro process cannot be set from outside; detection of an order leak is probabilistic (stated in the evidence). dependencies() order is not compared.",
